@@ -7,10 +7,10 @@ import (
 	"os"
 	"os/exec"
 	"path/filepath"
-	"sort"
-	"strings"
 	"runtime/debug"
+	"sort"
 	"strconv"
+	"strings"
 	"time"
 
 	"verif/an"
